@@ -42,6 +42,10 @@ def environment_artefact(e):
     if isinstance(e, OSError) and not getattr(e, "sim", False) and not isinstance(e, BlockingIOError) \
             and e.errno in (errno.EBADF, errno.ENOTTY, errno.ENOTSOCK):
         return True
+    import termios
+    if isinstance(e, termios.error) and not getattr(e, "sim", False) and e.args \
+            and e.args[0] in (errno.EBADF, errno.ENOTTY):
+        return True       # (termios.error is not an OSError)
     return False
 
 
@@ -166,6 +170,8 @@ class World:
         self.on_quiescent = None     # callable() -> True if it injected something that may wake a thread
         self.on_main_line = None     # callable() run at traced line boundaries of the main thread
         self.main_waited = False     # the clock advanced while the main thread was blocked
+        self._last_read = None
+        self._same_reads = 0
         self.at_line = 0             # line of curtsies/input.py at the current traced yield point (0: a seam call)
         self.preempt_sites = set()   # (line of input.py, pre-empted thread is a trigger thread) where a switch happened
         self.probes = {}
@@ -225,7 +231,19 @@ class World:
         self.yield_point()
 
     def time(self):
-        self.now += self.time_cost
+        if self.time_cost:
+            self.now += self.time_cost
+        else:
+            # a coarse clock may return the same value a few times in a row, but no clock stands still for
+            # ever: a library loop that polls until time has passed must terminate
+            if self.now == self._last_read:
+                self._same_reads += 1
+                if self._same_reads >= 4:
+                    self.now += 1e-6
+                    self._same_reads = 0
+            else:
+                self._same_reads = 0
+            self._last_read = self.now
         return self.now
 
     def line_point(self, lineno=0):
